@@ -181,12 +181,25 @@ pub struct FileCase {
     pub mem: Mem,
     /// (record index, position, byte): insert a foreign byte -> the run must be refused
     pub poison: Option<(u16, u16, u8)>,
+    /// the record list is written this many times (ids suffixed): batches of hundreds of records
+    #[serde(default)]
+    pub copies: usize,
 }
 
 pub fn check_file(c: &FileCase) -> Verdict {
     let mut v = Verdict::new();
     let mut recs = c.recs.clone();
     let mut bad: Option<usize> = None;
+    if c.copies > 1 {
+        let base = recs.clone();
+        recs = Vec::with_capacity(base.len() * c.copies);
+        for j in 0..c.copies {
+            for r in &base {
+                recs.push(Rec { id: format!("{}.{}", r.id, j), desc: r.desc.clone(), seq: r.seq.clone() });
+            }
+        }
+        v.class_if(recs.len() > 256, "records>256");
+    }
     if let Some((ri, pos, b)) = c.poison {
         if !recs.is_empty() {
             let i = crate::util::idx16(ri, recs.len());
@@ -291,9 +304,12 @@ impl Leg for Files {
             gen::square_strategy(),
             gen::threads_strategy(),
             prop::sample::select(vec![Mem::OneByte, Mem::ThreeRecords, Mem::Half, Mem::Max]),
-            prop_oneof![3 => Just(None), 1 => (any::<u16>(), any::<u16>(), gen::foreign(true)).prop_map(Some)],
+            // the offending byte: the usual ambiguity codes, or any printable non-nucleotide character (a pre-check that
+            // tests several bytes at once may let some values through that a table lookup rejects)
+            prop_oneof![6 => Just(None), 1 => (any::<u16>(), any::<u16>(), gen::foreign(true)).prop_map(Some), 2 => (any::<u16>(), any::<u16>(), (0x21u8..=0x7e).prop_map(|b| if crate::model::is_base(b) || b == b'>' || b == b'@' || b == b'+' { b'N' } else { b })).prop_map(Some)],
+            prop_oneof![8 => Just(1usize), 1 => 8usize..=40],
         )
-            .prop_map(|((recs, cont), s, threads, mem, poison)| FileCase { recs, cont, s, threads, mem, poison })
+            .prop_map(|((recs, cont), s, threads, mem, poison, copies)| FileCase { recs, cont, s, threads, mem, poison, copies })
             .boxed()
     }
     fn check(c: &FileCase) -> Verdict {
